@@ -2,7 +2,7 @@
 import hashlib
 import json
 
-from harness import histories, impl
+from harness import exhaustive, histories, impl
 from harness.core import LaneBase
 
 
@@ -15,13 +15,41 @@ class Lane(LaneBase):
             'orientation, edge metadata, parents/children/neighbours, time-series lookups) is taken before and after '
             'every raising call on the implementation and the reply stream is compared with the model (whose failing '
             'steps return the state unchanged, by theorem). Non-trivial: at least one call raised on a graph that had '
-            'an edge; distinct by the hash of the reply stream.')
+            'an edge; distinct by the hash of the reply stream. Thorough tier additionally: every failing (state, '
+            'operation) pair over the exhaustive 3-name universes (see C01).')
     TRUSTED = ['snapshot = what the public readers return (object identity / invalidated handles not compared)']
 
+    EXHAUSTIVE = {'thorough': True}
+
     def cases(self, tier, rng):
-        yield from histories.gen_cases(tier, rng, 500, 8000, singles_only=True)
+        yield from histories.gen_cases(tier, rng, 2000, 8000, singles_only=True)
+        if tier == 'thorough':
+            yield from exhaustive.cases()
+
+    def run_exh(self, case):
+        oracle = []
+        tags = set()
+        nontrivial = [False]
+
+        def per_op(g, op, res):
+            if res is None:
+                return impl.snapshot(g)
+            r, before = res
+            if r != 'ok':
+                tags.add('exh:' + op[0] + ':' + r[4:])
+                nontrivial[0] = nontrivial[0] or bool(before['edges'])
+                after = impl.snapshot(g)
+                if after != before and not oracle:
+                    what = [k for k in before if before[k] != after[k]]
+                    oracle.append(f'{op[0]} raised {r[4:]} and changed the graph ({",".join(what)}): state={case["state"]} '
+                                  f'op={op}')
+        lines, out = exhaustive.run(case, per_op)
+        return {'lines': lines, 'impl': out, 'oracle': oracle, 'nontrivial': nontrivial[0],
+                'key': repr((case['cls'], case['state'], case['ops'][0])), 'tags': sorted(tags)}
 
     def run_case(self, case):
+        if case.get('kind') == 'exh':
+            return self.run_exh(case)
         g = impl.new_graph(case['cls'], case.get('gmeta') or None)
         lines = [f"g new h {case['cls']} {impl.enc_meta(case.get('gmeta'))}"]
         out = ['ok']
@@ -57,4 +85,10 @@ class Lane(LaneBase):
         return 'C03:' + case['cls'] + ':' + head
 
     def shrink(self, case, still_fails):
+        if case.get('kind') == 'exh':
+            for op in case['ops']:
+                c2 = dict(case, ops=[op])
+                if still_fails(c2):
+                    return c2
+            return case
         return histories.shrink_ops(case, still_fails)
